@@ -26,6 +26,7 @@ pub fn run(tier: Tier, seed: u64) {
         accept_set(seed, tier, *cbal, *mbal, *amt, i == 0);
         special_soundness(seed, *cbal, *mbal, *amt);
     }
+    invalid_wire_elements(seed);
     lying_prover(seed, 100, 50, 7);
     lying_prover(seed, 100, 50, -7);
     if tier == Tier::Thorough {
@@ -546,5 +547,18 @@ fn lying_prover(seed: u64, cbal: u64, mbal: u64, amt: i64) {
         }
     }
     eng::set_cex_unknowns(&[]);
+    eng::path_done();
+}
+
+/// A pay proof on the wire with one atom replaced by an invalid encoding (non-canonical scalar, curve point outside the
+/// prime-order group - e.g. a small-order sigma1 that pairs to one with everything) must not reach `allow_payment`.
+fn invalid_wire_elements(seed: u64) {
+    sx::begin(vec![], DrawMode::NonDegenerate, seed);
+    let e = pay_setup(seed, 100, 50, 7);
+    let acc = invalid_encodings_accepted::<PProof>(&e.bytes, &e.at);
+    eng::ctx(|cx| cx.obligations.push(eng::ObRecord { name: format!("C02 PayProof: each of the {} atoms replaced by an invalid encoding is refused at decode time", e.at.len()), kind: "ENUM", verdict: if acc.is_empty() { "held".into() } else { "violated".into() }, answer: "structural".into(), ms: 0.0, bytes: 0, nvars: 0, nasserts: 0, cross: vec![] }));
+    if !acc.is_empty() {
+        eng::finding("C02 invalid-encoding-reaches-verifier", &format!("PayProof: an out-of-group / non-canonical encoding of {:?} decodes and would be handed to allow_payment", &acc[..acc.len().min(6)]), None, json!({"kind": "model"}));
+    }
     eng::path_done();
 }
